@@ -1013,6 +1013,17 @@ func registerLibIntrinsics() {
 		return Slice{arr: &arr, n: 16, cp: 16}, true
 	}
 	I["(time.Time).Add"] = func(in *Interp, fr *frame, args []Value) (Value, bool) {
+		// now + d with d > 0 is "a future instant" (ext = 2); everything else keeps its class
+		st, ok := args[0].(Struct)
+		if ok && len(st) >= 2 {
+			if e, ok := st[1].(Int); ok && e == 1 {
+				if d, ok := args[1].(Int); !ok || int64(d) > 0 {
+					out := append(Struct{}, st...)
+					out[1] = Int(2)
+					return out, true
+				}
+			}
+		}
 		return args[0], true
 	}
 	I["unicode/utf8.Valid"] = func(in *Interp, fr *frame, args []Value) (Value, bool) {
